@@ -191,6 +191,10 @@ class AliasMixin:
         # (in this example, X -> Z, Y -> Z)
         aliases = copy.deepcopy(self.ALIASES)
 
+        # Drop any variables that point to themselves: they need no alias (and
+        # would otherwise keep the loop below from ever finishing)
+        aliases = {k: v for k, v in aliases.items() if k != v}
+
         while True:
             # Check for chained aliases by testing to see if there are any
             # shared names between the keys and values. If so, there is at
